@@ -12,8 +12,8 @@ from typing import Any, Dict, List, Optional
 from mc import boot
 
 LEVEL = "model_checking"
-EVIDENCE_DIR = os.path.join(boot.VERIF, "evidence")
-REPLAY_DIR = os.path.join(boot.VERIF, "replays")
+EVIDENCE_DIR = os.environ.get("VERIF_EVIDENCE_DIR") or os.path.join(boot.VERIF, "evidence")
+REPLAY_DIR = os.environ.get("VERIF_REPLAY_DIR") or os.path.join(boot.VERIF, "replays")
 FINDINGS = os.path.join(boot.VERIF, "known_findings.txt")
 
 
